@@ -24,7 +24,7 @@ def run(ctx):
     from props import c18
     exe = ctx.build_harness("server", only=c18.CONN_FILES)
     if exe:
-        outdir = ctx.run_harness(exe, "conn", 50 if ctx.tier == "quick" else 600, extra={"VERIF_CONN_RISKY_EVERY": "0"}, timeout=900)
+        outdir = ctx.run_harness(exe, "conn", 150 if ctx.tier == "quick" else 600, extra={"VERIF_CONN_RISKY_EVERY": "0"}, timeout=900)
         if outdir:
             dis = ctx.diff(outdir, "conn", classify=c18.classify)
             c18.read_monitor(ctx, outdir, "conn", ["C03:"])
